@@ -83,7 +83,7 @@ pub fn judge(case: &Case) -> Verdict {
                 Some(c) => c,
                 None => return Verdict::NotJudged("not a scalar value".into()),
             };
-            let (exp, got) = if case.kind == "rank_char" { (rank_disc(ch), guard(|| CardRank::from_char(ch) as u8)) } else { (suit_disc(ch), guard(|| CardSuit::from_char(ch) as u8)) };
+            let (exp, got) = if case.kind == "rank_char" { (rank_disc(ch), guard(|| super::c10::rank_no(CardRank::from_char(ch)))) } else { (suit_disc(ch), guard(|| super::c10::suit_no(CardSuit::from_char(ch)))) };
             match got {
                 Err(p) => Verdict::Violated { class: format!("panic:{}", case.kind), expected: format!("{}", exp), observed: format!("panic: {}", p) },
                 Ok(g) if g != exp => Verdict::Violated { class: format!("{}:{}", case.kind, if exp == 0 { "accepts-a-non-symbol" } else { "rejects-or-misreads-a-symbol" }), expected: format!("member {} for {:?} (U+{:04X})", exp, ch, ch as u32), observed: format!("member {}", g) },
@@ -99,7 +99,7 @@ pub fn judge(case: &Case) -> Verdict {
             match guard(|| {
                 let w = CKCNumber::from_index(&s);
                 let (r, su) = ckc_rs::parse::get_rank_and_suit(&s);
-                (w, r as u8, su as u8)
+                (w, super::c10::rank_no(r), super::c10::suit_no(su))
             }) {
                 Err(p) => Verdict::Violated { class: "panic:token".into(), expected: show_word(exp), observed: format!("panic: {}", p) },
                 Ok((w, r, su)) => {
@@ -191,7 +191,7 @@ fn check_token(acc: &mut Acc, s: &str) {
     }
     let ok = matches!(guard(|| {
         let (r, su) = ckc_rs::parse::get_rank_and_suit(s);
-        (CKCNumber::from_index(s), r as u8, su as u8)
+        (CKCNumber::from_index(s), super::c10::rank_no(r), super::c10::suit_no(su))
     }), Ok((w, r, su)) if w == exp && members_ok(exp, r, su));
     if !ok {
         match confirm(judge, Case::text("token", s, &[])) {
@@ -257,7 +257,7 @@ pub fn run(ctx: &Ctx, rep: &mut Report) {
                     if er != 0 || es != 0 {
                         acc.nontrivial += 1;
                     }
-                    if !matches!(guard(|| (CardRank::from_char(ch) as u8, CardSuit::from_char(ch) as u8)), Ok((r, s)) if r == er && s == es) {
+                    if !matches!(guard(|| (super::c10::rank_no(CardRank::from_char(ch)), super::c10::suit_no(CardSuit::from_char(ch)))), Ok((r, s)) if r == er && s == es) {
                         let mut found = false;
                         for k in ["rank_char", "suit_char"] {
                             if let Some(v) = confirm(judge, Case::new(k, &[u as u64])) {
